@@ -77,6 +77,10 @@ CHECKS = {
         technique='property-based per-output validation of generated programs: configuration x option point -> emitted module is imported from a scratch file and its fixture compared with the input by canonical form; value-to-expression round trip by eval',
         text='For generated configurations (Config/Partial/ArgFactory, positional arguments, tags, shared nodes and containers, symbol/enum/bytes/complex/special-float leaves, tuple dict keys) and option points (new_codegen or auto_config_codegen, generated sub_fixtures, max_expression_complexity, include_history) plus two targeted scenarios (sub-fixture parameter/local name collision; variable named like a module that is only referenced by a leaf symbol), the generator must raise or emit text that compiles, imports and reproduces the configuration exactly; convert_py_val_to_cst output must eval to an equal value of the same type. Fourteen buckets from nine root causes in the code generators are listed known findings, each keyed by an input-feature predicate; cases with two such features are skipped.',
         note='Trusted: harness/canon.py, feature predicates in props/c12.py, CPython import/exec of the emitted module.'),
+    'C13': dict(
+        technique='property-based differential testing of generated programs: diff -> emitted fiddler (exec) versus apply_diff, over generated and template diffs and all four option points',
+        text='Diffs come from build_diff over the C10 pair generator and from two parametrised hand-assembled templates (reference into a replaced part of old through the same or an aliased path; new shared values referencing each other and old); each diff is rendered with both naming modes and with/without old, the module must compile, and fiddler(copy of old) must have the canonical form apply_diff produces. Diffs on which apply_diff itself fails are skipped (C10 owns them). Two code-generation limitations (tags on value-less arguments of created Buildables; positional arguments in created Buildables) are listed known findings.',
+        note='Trusted: diffing.apply_diff as the reference (its own correctness is judged by C10), harness/canon.py, exec of the emitted code.'),
 }
 
 PENDING = {}
